@@ -118,7 +118,102 @@ fn shared_schema(ctx: &mut Ctx, threads: usize) {
     }
 }
 
+// ---------------------------------------------------------------------------------------------
+// Lazily initialised shared state (OnceLock statics: built-in definitions, BuiltInScalars::ALL, meta-field
+// definitions …) must not depend on WHO initialises it first.  A fresh child process performs one "first action",
+// then the reference workload on several threads; every child must print what this process computes sequentially.
+const INIT_SCHEMAS: [&str; 3] = ["type Query { n: Int }", "type Query { ok: Boolean s: [String!] }", "type Query { i: ID f(x: Float): Query } scalar Int"];
+
+fn reference_workload() -> Vec<String> {
+    let mut out = vec![];
+    for src in INIT_SCHEMAS {
+        match Schema::parse_and_validate(src, "s.graphql") {
+            Err(e) => out.push(format!("invalid: {}", e.errors.iter().map(|d| d.error.to_string()).collect::<Vec<_>>().join("|"))),
+            Ok(valid) => {
+                let keys = |s: &Schema| s.types.keys().map(|k| k.to_string()).collect::<Vec<_>>().join(",");
+                out.push(format!("types {}", keys(&valid)));
+                out.push(workload(&valid, "{ __schema { types { name kind } directives { name } } }"));
+                out.push(workload(&valid, "{ __typename }"));
+                // validate → into_inner → add a field of a (possibly pruned) built-in scalar → validate
+                for b in ["Float", "ID", "Int"] {
+                    let mut inner = valid.clone().into_inner();
+                    if let Some(apollo_compiler::schema::ExtendedType::Object(q)) = inner.types.get_mut("Query") {
+                        let name = apollo_compiler::Name::new("added").unwrap();
+                        let f = apollo_compiler::schema::FieldDefinition { description: None, name: name.clone(), arguments: vec![], ty: apollo_compiler::ast::Type::Named(apollo_compiler::Name::new(b).unwrap()), directives: Default::default() };
+                        q.make_mut().fields.insert(name, apollo_compiler::schema::Component::new(f));
+                    }
+                    match inner.validate() { Ok(v) => out.push(format!("+{b}: {}", keys(&v))), Err(e) => out.push(format!("+{b}: invalid {}", e.errors.iter().map(|d| d.error.to_string()).collect::<Vec<_>>().join("|"))) }
+                }
+            }
+        }
+    }
+    let schema = Schema::parse_and_validate(SCHEMA, "s.graphql").expect("schema valid");
+    for d in DOCS { out.push(workload(&schema, d)); }
+    out
+}
+
+fn first_action(which: usize) {
+    use apollo_compiler::schema::ExtendedType;
+    match which {
+        0 => {}
+        // a hand-pruned schema (the shape of Valid::into_inner(): unused built-in scalars absent) is validated first
+        1 | 2 => {
+            if let Ok(mut s) = Schema::parse("type Query { ok: Boolean }", "p.graphql") {
+                for b in if which == 1 { vec!["Int", "Float", "ID"] } else { vec!["Int", "Float", "ID", "String", "Boolean"] } { s.types.shift_remove(b); }
+                let _ = s.validate();
+            }
+        }
+        3 => { let _ = Schema::new().validate(); }
+        4 => { if let Ok(s) = Schema::parse("type Query { a: Int }", "p.graphql") { let _ = s.type_field("Query", "__typename"); let _ = s.type_field("Query", "__schema"); } }
+        5 => { let _ = apollo_compiler::ast::Document::parse("{ a }", "d.graphql"); let _ = apollo_compiler::ast::Type::parse("[Int]", "t.graphql"); }
+        6 => { let _ = Schema::parse_and_validate("scalar Int scalar String type Query { a: Int }", "p.graphql"); }
+        7 => { let _ = Schema::parse_and_validate("directive @skip(if: Boolean! = true, why: String) repeatable on FIELD | QUERY  directive @deprecated(reason: String = \"x\") on FIELD_DEFINITION  type Query { a: Int @deprecated }", "p.graphql"); }
+        8 => { if let Ok(mut s) = Schema::parse("type Query { a: Int }", "p.graphql") { s.types.retain(|_, t| !matches!(t, ExtendedType::Scalar(_))); let _ = s.validate(); } }
+        _ => { let _ = Schema::builder().build(); }
+    }
+}
+
+/// `VH_C31_CHILD=<first action>:<threads>`
+pub fn child_main(spec: &str) {
+    let mut it = spec.split(':').map(|x| x.parse::<usize>().unwrap_or(0));
+    let (first, threads) = (it.next().unwrap_or(0), it.next().unwrap_or(1).max(1));
+    // on its own thread or on the main thread, before anything else touches the library
+    if first % 2 == 1 { let _ = std::thread::spawn(move || first_action(first)).join(); } else { first_action(first); }
+    let handles: Vec<_> = (0..threads).map(|_| std::thread::spawn(reference_workload)).collect();
+    for (t, h) in handles.into_iter().enumerate() {
+        match h.join() { Ok(v) => for (i, l) in v.iter().enumerate() { println!("{t}\t{i}\t{}", l.replace('\n', "\\n").replace('\t', " ")); }, Err(_) => println!("{t}\tpanic") }
+    }
+}
+
+fn init_order(ctx: &mut Ctx) {
+    let want: Vec<String> = reference_workload().iter().map(|l| l.replace('\n', "\\n").replace('\t', " ")).collect();
+    let Ok(exe) = std::env::current_exe() else { return };
+    for first in 0..10usize {
+        for threads in [1usize, 4] {
+            let spec = format!("{first}:{threads}");
+            let Ok(out) = std::process::Command::new(&exe).arg("C31").env("VH_C31_CHILD", &spec).output() else { ctx.stat("init_order_spawn_failed"); continue };
+            let desc = format!("fresh process: first action {first}, then the reference workload on {threads} thread(s)");
+            if !out.status.success() { ctx.fail("shared-state-child-crashed", &desc, &format!("{:?}", out.status)); continue; }
+            let text = String::from_utf8_lossy(&out.stdout);
+            let mut seen = 0usize;
+            for line in text.lines() {
+                let parts: Vec<&str> = line.splitn(3, '\t').collect();
+                if parts.len() < 3 { if line.ends_with("panic") { ctx.fail("shared-state-child-crashed", &desc, line); } continue; }
+                let i: usize = parts[1].parse().unwrap_or(usize::MAX);
+                seen += 1;
+                if want.get(i).map(|s| s.as_str()) != Some(parts[2]) {
+                    ctx.fail("shared-state-depends-on-initialisation-order", &desc, &format!("thread {} step {i}: child printed {:?}, this process computes {:?}", parts[0], parts[2].chars().take(200).collect::<String>(), want.get(i).map(|s| s.chars().take(200).collect::<String>())));
+                    break;
+                }
+            }
+            if seen != want.len() * threads { ctx.fail("shared-state-child-crashed", &desc, &format!("{seen} lines, expected {}", want.len() * threads)); }
+            ctx.stat("init_order_children");
+        }
+    }
+}
+
 pub fn run(ctx: &mut Ctx) {
+    init_order(ctx);
     // boundary + random ids for packing
     let mut ids: Vec<u64> = vec![0, 1, 2, 3, 4, 255, 256, u32::MAX as u64, u32::MAX as u64 + 1, TAG - 2, TAG - 1, TAG, TAG + 1, u64::MAX - 1, u64::MAX];
     for b in 0..64 { ids.push(1u64 << b); ids.push((1u64 << b).wrapping_sub(1)); ids.push((1u64 << b) | 1); }
